@@ -224,7 +224,7 @@ def describe(rep):
 
 
 def tasks(tier, seed):
-    T = [('crash', 'record'), ('crash', 'header'), ('reindex',), ('overwrite',), ('header',)]
+    T = [('crash', 'record'), ('crash', 'header'), ('reindex',), ('overwrite',), ('header',), ('interleave',)]
     for k in ([0, 1, 2, 3] if tier == 'quick' else [0, 1, 2, 3, 4, 5, 6]):
         T.append(('times', k))
     T.append(('blocks',))
@@ -247,6 +247,8 @@ def run_task(rep, task):
             crash_case(rep, task[1])
         elif task[0] == 'reindex':
             reindex_case(rep)
+        elif task[0] == 'interleave':
+            interleave_case(rep)
         elif task[0] == 'overwrite':
             overwrite_case(rep)
         elif task[0] == 'header':
@@ -511,6 +513,128 @@ def reindex_case(rep):
     rep.ob('time:coverage', coverage_certificate(paths, pre, name='time:coverage'))
 
 
+def interleave_case(rep):
+    """two live handles on one file (any interleaving of write / re-open / read): every handle sees the records the other one has completed, an append
+    through either handle goes behind all completed records and leaves them intact"""
+    nVar, k = z3.Ints('nVar k')
+    pre = [nVar >= 1, k >= 0]
+
+    def fn(ctx):
+        FS[0] = FSys()
+        READS.clear()
+        for a in pre:
+            ctx.add(a)
+        f = new_scalar(nVar)
+        h, R = I(f.hSize), I(f.tSize + f.fSize)
+        F = FS[0].files['x.pysdc']
+        F.events.append(('w', h, k * R, 'records 0..k-1', None))
+        base_ev = len(F.events) - 1
+        F.length = SymInt(h + k * R)
+        g = fio.FieldsIO.fromFile('x.pysdc')  # second handle, opened before the next append
+        out = {'h': h, 'R': R, 'g0': I(g.nFields), 'f0': I(f.nFields)}
+        nev = len(F.events)
+        f.addField(1.5, SymArr(SymInt(nVar), np.float64, 'by-f'))
+        wf = [(i, ev) for i, ev in enumerate(F.events) if i >= nev and ev[0] == 'w']
+        out['f_time'], out['f_field'] = wf[0][1][1:3], wf[1][1][1:3]
+        out['g1'], out['f1'] = I(g.nFields), I(f.nFields)
+        READS.clear()
+        try:
+            g.readField(SymInt(-1))  # the record written through the other handle
+        except AssertionError:
+            out['rejected'] = True  # (a valid index refused: the goal below fails for this path)
+        out['g_reads_last'] = [dict(r) for r in READS]
+        nev = len(F.events)
+        g.addField(2.5, SymArr(SymInt(nVar), np.float64, 'by-g'))
+        wg = [(i, ev) for i, ev in enumerate(F.events) if i >= nev and ev[0] == 'w']
+        out['g_time'], out['g_field'] = wg[0][1][1:3], wg[1][1][1:3]
+        out['g2'], out['f2'] = I(g.nFields), I(f.nFields)
+        READS.clear()
+        try:
+            f.readField(SymInt(k))
+        except AssertionError:
+            out['rejected'] = True
+        out['f_reads_k'] = [dict(r) for r in READS]
+        out['old_intact'] = intact(F, h, k * R, base_ev + 1)
+        out['f_rec_intact'] = z3.And(intact(F, wf[0][1][1], wf[0][1][2], wf[0][0]), intact(F, wf[1][1][1], wf[1][1][2], wf[1][0]))
+        out['length'] = I(F.length)
+        READS.clear()
+        return out
+
+    paths = explore(fn)
+    rep.paths += len(paths)
+    for i, p in enumerate(paths):
+        o = p.result
+        A = pre + list(p.assume) + list(p.pc)
+        h, R = o['h'], o['R']
+        goals = {
+            'both-handles-see-all-completed-records': z3.And(o['g0'] == k, o['f0'] == k, o['g1'] == k + 1, o['f1'] == k + 1, o['g2'] == k + 2, o['f2'] == k + 2),
+            'append-goes-behind-the-completed-records': z3.And(o['f_time'][0] == h + k * R, o['f_time'][1] == 8, o['f_field'][0] == h + k * R + 8, o['f_field'][1] == R - 8,
+                                                               o['g_time'][0] == h + (k + 1) * R, o['g_field'][0] == h + (k + 1) * R + 8, o['length'] == h + (k + 2) * R),
+            'other-handle-reads-the-new-record': z3.And(not o.get('rejected', False), len(o['g_reads_last']) == 2, *([o['g_reads_last'][0]['pos'] == h + k * R, o['g_reads_last'][1]['pos'] == h + k * R + 8] if len(o['g_reads_last']) == 2 else []),
+                                                        len(o['f_reads_k']) == 2, *([o['f_reads_k'][0]['pos'] == h + k * R] if len(o['f_reads_k']) == 2 else [])),
+            'completed-records-stay-intact': z3.And(o['old_intact'], o['f_rec_intact']),
+        }
+        for cl, g_ in goals.items():
+            r, m = prove(g_, A, name=f'interleave/path{i}:{cl}')
+            rep.ob(f'interleave/path{i}:{cl}', r)
+            if r == 'sat':
+                rep.replayed += 1
+                nV, kk = max(1, min(int(model_value(m, nVar)), 4)), max(0, min(int(model_value(m, k)), 3))
+                bad = real_interleave(nV, kk)
+                if bad:
+                    rep.violation(f'{PID}/interleaved-handles/{cl}', f'interleave: real Scalar file nVar={nV}, {kk} records, two live handles: {bad}', {'task': ['interleave'], 'nVar': nV, 'k': kk, 'violated': bad})
+                else:
+                    rep.unreproduced(f'interleave/path{i}:{cl}', str(m)[:200])
+    rep.ob('interleave:coverage', coverage_certificate(paths, pre, name='interleave:coverage'))
+
+
+def real_interleave(nVar, k):
+    """the same interleaving on a real file"""
+    d = tempfile.mkdtemp(prefix='c16i_', dir='/dev/shm' if os.path.isdir('/dev/shm') else None)
+    path = os.path.join(d, 'x.pysdc')
+    shadowed = getattr(fio, 'open', None) is sym_open
+    if shadowed:
+        uninstall()
+    bad = []
+    try:
+        f = fio.Scalar(np.float64, path)
+        f.setHeader(nVar=nVar)
+        f.initialize()
+        rng = np.random.RandomState(7 + nVar + k)
+        recs = [(float(j) + 0.5, rng.rand(nVar)) for j in range(k + 2)]
+        for j in range(k):
+            f.addField(*recs[j])
+        g = fio.FieldsIO.fromFile(path)
+        if g.nFields != k or f.nFields != k:
+            bad.append(f'nFields before: {f.nFields}, {g.nFields} (expected {k})')
+        f.addField(*recs[k])
+        if g.nFields != k + 1:
+            bad.append(f'second handle reports {g.nFields} records after an append through the first (expected {k + 1})')
+        try:
+            t, u = g.readField(-1)
+            if t != recs[k][0] or not np.array_equal(u, recs[k][1]):
+                bad.append('second handle does not read the record appended through the first')
+        except Exception as e:
+            bad.append(f'second handle cannot read the last record: {type(e).__name__}')
+        g.addField(*recs[k + 1])
+        if f.nFields != k + 2 or g.nFields != k + 2:
+            bad.append(f'nFields after both appends: {f.nFields}, {g.nFields} (expected {k + 2})')
+        h2 = fio.FieldsIO.fromFile(path)
+        if list(h2.times) != [r[0] for r in recs]:
+            bad.append(f'file holds times {list(h2.times)} (expected {[r[0] for r in recs]})')
+        elif not all(np.array_equal(h2.readField(j)[1], recs[j][1]) for j in range(k + 2)):
+            bad.append('a completed record was overwritten')
+    except Exception as e:
+        bad.append(f'{type(e).__name__}: {e}')
+    finally:
+        import shutil
+
+        shutil.rmtree(d, ignore_errors=True)
+        if shadowed:
+            install()
+    return bad
+
+
 def times_case(rep, k):
     nVar, c = z3.Ints('nVar c')
     pre = [nVar >= 1, c >= 0]
@@ -747,6 +871,9 @@ def replay(path):
     if d.get('task') == ['overwrite']:
         bad = real_overwrite(d['ell'], max(1, min(d['nVar'], 50)))
         print('existing file overwritten:', bad)
+    elif d.get('task') == ['interleave']:
+        bad = real_interleave(d['nVar'], d['k'])
+        print('violated:', bad)
     elif 'nVar' in d:
         res = real_crash_scenario(d['nVar'], d['k'], d['c'], d.get('idx'))
         bad = judge_real(res, d['k'], d.get('idx'))
